@@ -71,8 +71,11 @@ CLAIMS = {
  "C02": dict(level="model_checking", design_ref="DESIGN.md 4/C02",
    text="The document conditions of Signature.tla (GEN-01 other digest, GEN-04 other algorithm, GEN-03 level above the first correction, level > 255 refused) are "
         "part of the TLC-checked rule-tree/declarative equivalence; every document x level context of the case table, all 256 single-bit flips of a digest and 12 "
-        "levels from 256 to 2^64-1 are verified by libksi under the internal policy; the verdict must lie in Allowed (never OK).",
-   note="The five anchor-based verifying policies are exercised with document contexts by C04's environment once built; until then C02 binds the internal policy only.",
+        "levels from 256 to 2^64-1 are verified by libksi under the internal policy; the verdict must lie in Allowed (never OK). The same document / level contexts are then "
+        "replayed under the key-based, calendar-based, publications-file, user-publication and general policies on signatures whose trust anchor matches (C04's "
+        "environment: real PKI, publications file, scripted extender), where the only admissible outcomes are OK for the right hash and level, GEN-01 / GEN-04 / "
+        "GEN-03, or a refusal for levels above 255.",
+   note="AnchorPolicy.tla shows the internal rules dominate every path to OK of the five anchor policies (BrokenNeverOk). RFC3161 (legacy) signatures are not generated.",
    technique="TLC-checked rule-tree model + exhaustive context table and bit-flip enumeration replayed into libksi"),
  "C10": dict(level="model_checking", design_ref="DESIGN.md 4/C10",
    text="Schema.tla restates the KSI schema of signatures and aggregation / extension response PDUs (v2) as data with a declarative Accept (mandatory, "
